@@ -41,4 +41,70 @@ theorem verifyTail_keys (md hm pk sk : Bytes) :
     by_cases c : (List.length md == 16 + 32 && List.drop 16 md == hm) = true <;> simp [c] at h
 
 
+/-! ### record ranges -/
+open Ldk.Merkle (Rec)
+
+theorem mem_takeWhile_sorted (lo hi : Nat) : ∀ (xs : List Rec) (r : Rec),
+    xs.Pairwise (fun a b => a.ty < b.ty) → (∀ y ∈ xs, lo ≤ y.ty) → r ∈ xs → r.ty < hi →
+    r ∈ xs.takeWhile (fun r => lo ≤ r.ty && r.ty < hi)
+  | [], _, _, _, h, _ => by simp at h
+  | y :: ys, r, hp, hlo, hr, hhi => by
+    have hy : y.ty < hi := by
+      rcases List.mem_cons.mp hr with rfl | h
+      · exact hhi
+      · exact Nat.lt_trans ((List.pairwise_cons.mp hp).1 r h) hhi
+    have hin : (decide (lo ≤ y.ty) && decide (y.ty < hi)) = true := by
+      simp [hlo y List.mem_cons_self, hy]
+    rw [List.takeWhile_cons]
+    simp only [hin, ↓reduceIte]
+    rcases List.mem_cons.mp hr with rfl | h
+    · exact List.mem_cons_self
+    · exact List.mem_cons_of_mem _ (mem_takeWhile_sorted lo hi ys r (List.pairwise_cons.mp hp).2
+        (fun z hz => hlo z (List.mem_cons_of_mem _ hz)) h hhi)
+
+/-- on an ascending stream `TlvStream::range` keeps every record of the range -/
+theorem mem_rangeRecs (lo hi : Nat) : ∀ (rs : List Rec) (r : Rec),
+    rs.Pairwise (fun a b => a.ty < b.ty) → r ∈ rs → lo ≤ r.ty → r.ty < hi → r ∈ rangeRecs lo hi rs
+  | [], _, _, h, _, _ => by simp at h
+  | x :: xs, r, hp, hr, hlo, hhi => by
+    unfold rangeRecs
+    by_cases hx : (decide (lo ≤ x.ty) && decide (x.ty < hi)) = true
+    · rw [List.dropWhile_cons]
+      simp only [hx, Bool.not_true, Bool.false_eq_true, ↓reduceIte]
+      apply mem_takeWhile_sorted lo hi (x :: xs) r hp _ hr hhi
+      intro y hy
+      rcases List.mem_cons.mp hy with rfl | h
+      · simp only [Bool.and_eq_true, decide_eq_true_eq] at hx; exact hx.1
+      · simp only [Bool.and_eq_true, decide_eq_true_eq] at hx
+        exact Nat.le_trans hx.1 (Nat.le_of_lt ((List.pairwise_cons.mp hp).1 y h))
+    · have hx' : (decide (lo ≤ x.ty) && decide (x.ty < hi)) = false := Bool.eq_false_iff.mpr hx
+      rw [List.dropWhile_cons]
+      simp only [hx', Bool.not_false, ↓reduceIte]
+      have hne : r ≠ x := by
+        rintro rfl
+        apply hx
+        simp [hlo, hhi]
+      have hr' : r ∈ xs := by
+        rcases List.mem_cons.mp hr with h | h
+        · exact absurd h hne
+        · exact h
+      exact mem_rangeRecs lo hi xs r (List.pairwise_cons.mp hp).2 hr' hlo hhi
+
+theorem of_mem_takeWhile {α} (p : α → Bool) : ∀ (xs : List α) (r : α), r ∈ xs.takeWhile p → p r = true
+  | [], _, h => by simp at h
+  | x :: xs, r, h => by
+    rw [List.takeWhile_cons] at h
+    by_cases hp : p x = true
+    · simp only [hp, ↓reduceIte] at h
+      rcases List.mem_cons.mp h with rfl | h'
+      · exact hp
+      · exact of_mem_takeWhile p xs r h'
+    · simp [hp] at h
+
+theorem rangeRecs_in_range (lo hi : Nat) (rs : List Rec) : ∀ r ∈ rangeRecs lo hi rs, lo ≤ r.ty ∧ r.ty < hi := by
+  intro r hr
+  unfold rangeRecs at hr
+  have := of_mem_takeWhile _ _ r hr
+  simpa using this
+
 end Ldk.OfferMeta
